@@ -143,3 +143,48 @@ func VH_C12_PrivateChat() {
 	res = HandleChatSend(cc, &t)
 	vAssert("after_leave_receives_nothing", c12Count(res, c.ID, hotline.TranChatMsg) == 0 && len(res) == len(members))
 }
+
+// Invitation to a new private chat: only the invited user is invited (once), unless that user refuses private
+// chats - then nobody is invited and the inviter is told; the new chat has the inviter as its only member, so the
+// invited user receives nothing from it until joining.
+func VH_C12_InviteNewChat() {
+	srv, cc, b, c := c12Setup("me")
+	cc.Account.Access = hotline.AccessBitmap{0xff, 0xff, 0xff, 0xff, 0xff, 0xff, 0xff, 0xff}
+	refuses := vBool("target_refuses_private_chat")
+	if refuses {
+		b.Flags.Set(hotline.UserFlagRefusePChat, 1)
+	}
+	t := hotline.NewTransaction(hotline.TranInviteNewChat, cc.ID, hotline.NewField(hotline.FieldUserID, b.ID[:]))
+	res := HandleInviteNewChat(cc, &t)
+	invB, invC, toldMe := 0, 0, 0
+	var chat hotline.ChatID
+	for _, r := range res {
+		if r.Type == hotline.TranInviteToChat && r.IsReply == 0 {
+			if r.ClientID == b.ID {
+				invB++
+			}
+			if r.ClientID == c.ID {
+				invC++
+			}
+		}
+		if r.Type == hotline.TranServerMsg && r.ClientID == cc.ID {
+			toldMe++
+		}
+		if r.IsReply == 1 {
+			copy(chat[:], r.Fields[0].Data)
+		}
+	}
+	vAssert("bystander_never_invited", invC == 0)
+	if refuses {
+		vAssert("refusing_user_not_invited", invB == 0 && toldMe == 1)
+	} else {
+		vAssert("invited_exactly_once", invB == 1 && toldMe == 0)
+	}
+	vAssume(chat != hotline.ChatID{})
+	m := srv.ChatMgr.Members(chat)
+	vAssert("new_chat_has_only_the_inviter", len(m) == 1 && m[0] == cc)
+	// a line into the new chat before anybody joined reaches the inviter alone
+	st := hotline.NewTransaction(hotline.TranChatSend, cc.ID, hotline.NewField(hotline.FieldData, []byte("hi")), hotline.NewField(hotline.FieldChatID, chat[:]))
+	res = HandleChatSend(cc, &st)
+	vAssert("invited_but_not_joined_receives_nothing", c12Count(res, b.ID, hotline.TranChatMsg) == 0 && c12Count(res, cc.ID, hotline.TranChatMsg) == 1 && len(res) == 1)
+}
